@@ -202,13 +202,15 @@ class CpuLoad:
         return False
 
 
-def run_e2e(res, bins, seed, nplays, immediate=False, workers=6, load_s=0):
+def run_e2e(res, bins, seed, nplays, immediate=False, workers=6, load_s=0, burst=0):
     """Generate nplays plays, run them through the real binary (workers at a
     time; with load_s > 0 under a CPU load of 2 x nproc busy loops lasting at
     most load_s seconds per batch of `workers` plays), evaluate."""
     d = tempfile.mkdtemp(prefix="shk-c08-e2e-")
     try:
         extra = ["-e2e-immediate", "-e2e-small"] if immediate else []
+        if burst:
+            extra += ["-e2e-burst", str(burst)]
         rc, o = vlib.run([bins["c08"], "-seed", str(seed), "-e2e", d, "-e2e-n", str(nplays)] + extra, timeout=600)
         if rc != 0:
             res.violation(None, "harness crashed (e2e generation)", {"kind": "harness-crash", "output": o[-4000:]}, no_input=True)
@@ -246,6 +248,34 @@ def run_e2e(res, bins, seed, nplays, immediate=False, workers=6, load_s=0):
                 json.load(open(os.path.join(outd, "summary.json"))))
     finally:
         shutil.rmtree(d, ignore_errors=True)
+
+
+BURST = 3000
+
+
+def burst_scenario(res, bins, tier, seed):
+    """A spotlight that prints a burst of BURST short matching lines from its
+    SIGHUP handler and exits at once: the lines are still in the pipe when the
+    process is gone, and every one must yield its row (the code gives the
+    reader one second after Wait to reach the end of the pipe).  No CPU load
+    here; the full oracle applies."""
+    e = run_e2e(res, bins, seed + 2000, 1 if tier == "quick" else 3, immediate=True, workers=3, burst=BURST)
+    if e is None:
+        return
+    ecases_v, ecases, esummary = e
+    ecases = ecases or []
+    eev = evaluate(res, ecases_v, tier + "burst", 3, oracle_only=True)
+    if eev is None:
+        return
+    for i, c in enumerate(ecases):       # a burst cut short is a row-count matter
+        if c.get("lost_last_lines") and not eev["OC"][i]:
+            eev["OC"][i] = 2
+        if eev["OC"][i] & 4:             # (the burst file is compared as count + digest)
+            eev["OC"][i] = (eev["OC"][i] & ~4) | 2
+    report_oracle(res, eev["OC"], ecases, describe_e2e)
+    res.coverage["burst_before_exit_plays"] = {
+        "plays": esummary["cases"], "stats": esummary["stats"], "oracle_failures": sum(1 for c in eev["OC"] if c),
+        "rule": "plays in which one spotlight's SIGHUP handler prints %d short matching lines at once and exits: all of them must be rows of the CSV" % BURST}
 
 
 def lastline_scenario(res, bins, tier, seed):
@@ -352,6 +382,8 @@ def run(tier, seed):
                                                    "rule": "plays through the real binary with 2-4 actors (of one role and of different roles), each actor's spotlight script printing its own generated lines (stdout/stderr alternating, blanks around lines, blank lines, uneven pace, 10-17 lines beginning with punctuation or shell-trace-like prefixes (`+ `, `++`, `# `, `> `, `$ `, leading tabs) matched by a scalar and an event signal, three lines of 4 KiB / 8 KiB / 64 KiB+ with the values at the end and 5000-character event texts, compared byte for byte via length + SHA-256) and one last line from its SIGHUP handler while the spotlight is being shut down at the end of the play (every second spotlight's output ends without a newline); per (observer, actor, signal) file the rows must be that actor's good lines exactly once, and every script must have been started exactly once"}
                 if esummary["stats"].get("inconclusive-play-cut-short"):
                     res.notes.append("%d end-to-end plays ended before a spotlight had printed all its lines (sentinel row missing): not judged" % esummary["stats"]["inconclusive-play-cut-short"])
+    if not res.violations:
+        burst_scenario(res, bins, tier, seed)
     if not res.violations and lastline_scenario_enabled():
         lastline_scenario(res, bins, tier, seed)
     return res.finish()
